@@ -503,6 +503,12 @@ class Prober(object):
                     reply = rc.decode(data)
                 except rc.DecodeError:
                     reply = data
+                if reply == "OK" and self.kind == "udp" and attempt < 2:
+                    # datagrams carry no request number: the acknowledgement of an earlier (hostile but accepted) REGISTER /
+                    # UNREGISTER that was sent from a socket whose port number this one happens to have inherited. Not an answer
+                    # to the query - ask again (three in a row are judged below like any wrong answer)
+                    ctx.count("stale_acknowledgements_skipped")
+                    continue
                 if reply != EXPECT[name]:
                     ctx.violation("C18/registration-altered", "after a %s input the query for %r is answered %r instead of %r"
                                   % (cls, name, reply, EXPECT[name]), witness)
